@@ -10,6 +10,7 @@ pub mod c12;
 pub mod c13;
 pub mod c14;
 pub mod c15;
+pub mod c16;
 pub mod c17;
 pub mod c20;
 pub mod common;
@@ -36,6 +37,7 @@ pub fn run(prop: &str, tier: Tier, seed: u64) -> i32 {
         "C14" => c14::run(tier, seed, &findings),
         "C20" => c20::run(tier, seed, &findings),
         "C15" => c15::run(tier, seed, &findings),
+        "C16" => c16::run(tier, seed, &findings),
         "C17" => c17::run("C17", tier, seed, &findings),
         "C18" => c17::run("C18", tier, seed, &findings),
         "C19" => c17::run("C19", tier, seed, &findings),
@@ -74,6 +76,7 @@ pub fn replay(path: &str) -> i32 {
         "C14" => c14::replay(&v, path, &findings),
         "C20" => c20::replay(&v, path, &findings),
         "C15" => c15::replay(&v, path, &findings),
+        "C16" => c16::replay(&v, path, &findings),
         "C17" => c17::replay("C17", &v, path, &findings),
         "C18" => c17::replay("C18", &v, path, &findings),
         "C19" => c17::replay("C19", &v, path, &findings),
